@@ -99,6 +99,17 @@ Definition spec_step (s : spec_state) (o : wop) (code : Z) : spec_state :=
       | None => s
       | Some w => if code =? 0 then spec_commit s w else drop
       end
+  | WWriteFault f _ _ =>
+      (* a write hit by an injected short write fails as a whole (code <> 0); if the fault did
+         not fire it is an ordinary write *)
+      match sp_w s with
+      | None => s
+      | Some w =>
+          if code =? 0 then
+            let w' := spec_write s w f in
+            if sw_auto w then spec_commit s w' else SP (sp_chans s) (sp_comm s) (Some w')
+          else drop
+      end
   | WClose | WReopen => drop
   end.
 
